@@ -13,3 +13,4 @@ open GoSQLXModel
 #print axioms Props.C10.gen_counters_add_only
 #print axioms Props.C10.gen_shared_guarded
 #print axioms Props.C10.totals_exact
+#print axioms Props.C10.gen_sizes_are_argument_lengths
